@@ -262,6 +262,8 @@ class Ctx:
                 if ok and t not in pas:
                     self.obligations[t]["status"] = "failed"
                     self.logs[f.name + ":" + t] = "no Print Assumptions for theorem"
+        if self.tier == "thorough" and os.environ.get("VERIF_COQCHK", "1") != "0":
+            self.coqchk(status)
 
     def mark_refuted(self, name, refuted_thm):
         """The positive obligation `name` does not hold of the faithful model: `refuted_thm` (a compiled
@@ -269,6 +271,37 @@ class Ctx:
         is a listed known finding."""
         if name in self.obligations:
             self.obligations[name]["refuted_by"] = refuted_thm
+
+    def coqchk(self, status, timeout=1500):
+        """thorough tier: re-check the compiled property files (and everything they depend on) with the independent
+        checker and record the axioms it reports. A timeout is recorded as a note, a rejection is a failure."""
+        mods = ["P." + f.stem for f in sorted(self.build.glob("*props*.v")) if status.get(f.name)]
+        if not mods:
+            return
+        t = time.time()
+        try:
+            r = subprocess.run(["timeout", str(timeout), "coqchk", "-silent", "-o", "-Q", str(COQLIB), "VLib", "-Q", str(self.build), "P"] + mods,
+                               cwd=self.build, capture_output=True, text=True)
+            out = r.stdout + r.stderr
+        except Exception as e:  # pragma: no cover
+            out, r = repr(e), None
+        info = {"modules": len(mods), "s": round(time.time() - t, 1)}
+        if r is not None and r.returncode == 124:
+            info["result"] = "timeout"
+            self.notes.append(f"coqchk did not finish within {timeout}s")
+        elif r is not None and r.returncode == 0 and "CONTEXT SUMMARY" in out:
+            info["result"] = "ok"
+            m = re.search(r"\* Axioms:(.*?)\n\s*\n\* Constants/Inductives relying on type-in-type", out, flags=re.S)
+            axs = re.findall(r"^\s+([A-Za-z_][\w.']*)", m.group(1), flags=re.M) if m else []
+            info["axioms"] = sorted(set(a for a in axs if a != "<none>"))
+            for key in ("type-in-type", "unsafe (co)fixpoints", "positivity is assumed"):
+                mm = re.search(re.escape(key) + r": (.*)", out)
+                if mm and "<none>" not in mm.group(1):
+                    self.fail("coqchk", f"coqchk:{key}", None, f"coqchk reports {key}: {mm.group(1)[:200]}", found_input=False)
+        else:
+            info["result"] = "rejected"
+            self.fail("coqchk", "coqchk:rejected", None, "coqchk rejected the compiled development", {"tail": out[-2000:]}, found_input=False)
+        self.cov["coqchk"] = info
 
     def add_obligation(self, name, ok, file="", axioms=None):
         self.obligations[name] = {"file": file, "status": "discharged" if ok else "failed", "axioms": axioms}
